@@ -21,6 +21,10 @@ def run_check(prop: str, tier: str, repo_root: str) -> int:
     except ModuleNotFoundError:
         print(f"ANALYSIS-ERROR property={prop}: no rule module")
         return 2
+    except Exception:
+        print(f"ANALYSIS-ERROR property={prop}: the rule module does not load")
+        traceback.print_exc()
+        return 2
     try:
         repo = Repo(repo_root)
         run = Run(prop, tier, repo.root, getattr(mod, "EXPLANATION", ""))
@@ -78,4 +82,14 @@ def main(argv=None) -> int:
 
 
 if __name__ == "__main__":
-    sys.exit(main())
+    try:
+        code = main()
+    except SystemExit:
+        raise
+    except BrokenPipeError:
+        code = 0
+    except BaseException:          # a crash of the analyser is never a verdict
+        print("ANALYSIS-ERROR: internal error of the analyser")
+        traceback.print_exc()
+        code = 2
+    sys.exit(code)
